@@ -45,6 +45,10 @@ CHECKS = {
          "grammar-bounded exhaustive enumeration of hostile inputs on both sides, executed in memory-capped single-threaded worker processes with hang watchdog; panic/progress/retained-heap oracles",
          "Every sequence of up to 2 (3) of 47 well-/ill-formed variants of the interpreted extensions in outer and sealed inner hellos, every length field set to {0,-1,+1,max} singly and pairwise, every message cut, every first-record type, and record/ServerHello/second-hello mutations in both directions after accepted and passed-through hellos are executed on the real Conn; no panic, no zero-progress return, bounded retained heap, no hang. The deadline clause (NewConn returns by its context deadline when the client stalls at any byte) is decided by the scheduler-based check registered with C10's engine.",
          "inputs are grammar-bounded, not arbitrary byte noise; memory measured as retained heap after the call with harness-held bytes subtracted", "§3 C08"),
+ "C06": ("model_checking", "E4 hist",
+         "explicit-state model of the retry protocol; every history up to the depth bound over a 19-event alphabet replayed on fresh real Conns, model and implementation compared after every event",
+         "The model (accepted / pass-through flags / armed-by-HRR / retried / dead) is stepped alongside the real Conn for every history of length 4 (thorough 5) over 14 client and 5 backend whole-record events, from three initial situations; bytes delivered, error class, alert bytes and close are compared at every step; reachable model states and transitions are counted.",
+         "model written from the property statement; whole-record events (fragmentation is C07); reference sender validated against crypto/tls", "§3 C06"),
 }
 
 NOT_YET = {}
